@@ -292,10 +292,15 @@ def explore(harness, timeout_ms=20000, max_paths=20000, max_seconds=600, branch_
         CUR = ctx
         ex.paths += 1
         try:
-            harness(ctx)
+            try:
+                harness(ctx)
+            except PathEnd:
+                pass
             ex.completed += 1
-        except PathEnd:
-            ex.completed += 1
+            # canary: a path whose condition became unsatisfiable through an `assume` proves everything
+            if ctx.results and ctx._check()[0] == z3.unsat:
+                ex.errors.append("vacuous path: path condition unsatisfiable at the end of a path with obligations %s"
+                                 % [r.name for r in ctx.results][:3])
         except PathInfeasible:
             ex.infeasible += 1
         except Unsupported as e:
